@@ -23,6 +23,7 @@ module c20f_m
   integer :: tks(MAXTOK), tke(MAXTOK)
   character(len=64) :: op
   integer :: fn = -1, fn_open = 0, cgio_n = -1, backend = 0, nids = 0
+  integer :: fn2 = -1, fn2_open = 0
   real(c_double) :: ids(0:63)
   character(len=4096) :: path1, path2
   real(c_double), target :: dbuf(4100)
